@@ -212,6 +212,18 @@ pub fn run(tier: &str, seed: u64, replay: Option<String>) -> i32 {
             });
         }
     }
+    // generated projects: decimal values off the two-decimal grid (12.716375 instead of 12.5)
+    for f in &files {
+        let mut js = diskrun::jobs_for(f, diskfault::enumerate_c19(f, false), 1, false, true);
+        js.retain(|j| matches!(j.edit, Edit::NumToText { .. }));
+        for mut j in js {
+            if let Edit::NumToText { line, tok } = j.edit {
+                j.edit = Edit::NumFine { line, tok };
+                j.cell = j.cell.replace("disk.number_to_text", "proj.number_with_more_digits");
+                line_jobs.push(j);
+            }
+        }
+    }
     // generated projects: a used definition and a used twin of it that differs in one value (two
     // elements that must not share an id, whatever value it is)
     for f in &files {
